@@ -378,6 +378,10 @@ def run_seedless(wi):
             ex2, _ = executed_orders(r2, sp)
             if ex2 != ex:
                 viol.append(('reported_seed_does_not_reproduce', sig, 'mode %s: seedless run executed %s; re-run with reported seed %s executed %s' % (mode, ex, rep, ex2)))
+            r3 = runrt.run_world(sp, seed_args(rep) + ['--list-tests'], probe=False)
+            evals += 1
+            if parse_listing(r3.text) != ex:
+                viol.append(('listing_with_reported_seed_differs', sig, 'mode %s: seedless run executed %s; --list-tests with the reported seed %s lists %s' % (mode, ex, rep, parse_listing(r3.text))))
     finally:
         SH.time = saved
     return evals, viol
